@@ -187,7 +187,7 @@ def staleDec : Dec :=
 def lagEnc : Enc := { cfg := { pt := 96, ssrc := 1, max := 12 }, seq := 10 }
 
 example : Inv 1500 staleDec :=
-  ⟨⟨by decide, by decide, by decide⟩, ⟨by decide, by decide, by decide, by decide, by decide⟩⟩
+  ⟨⟨by decide, by decide, by decide, by decide⟩, ⟨by decide, by decide, by decide, by decide, by decide⟩⟩
 
 /-- **the full flush statement is false for H264** (witness: a one-NALU frame after a lost marker) -/
 theorem c07_flush_false :
@@ -195,7 +195,7 @@ theorem c07_flush_false :
         ValidCfg e.cfg → ValidFrame au → Clean (runDec d (stamp ts (encode e au).2)).1) := by
   intro h
   have := h 1500 lagEnc [[0x41, 0x9a, 0x05]] 3000 staleDec
-    ⟨⟨by decide, by decide, by decide⟩, ⟨by decide, by decide, by decide, by decide, by decide⟩⟩
+    ⟨⟨by decide, by decide, by decide, by decide⟩, ⟨by decide, by decide, by decide, by decide, by decide⟩⟩
     (by decide) (by decide) (by decide)
   revert this
   decide
